@@ -17,3 +17,13 @@ theorem eabs_nonneg (x : EVal) : EVal.fin 0 ≤ eabs x := by
 
 
 end RtcVerif.C14
+
+namespace RtcVerif.EVal
+
+theorem max_comm' (a b : EVal) : EVal.max a b = EVal.max b a := by
+  rw [EVal.max_eq, EVal.max_eq]; exact _root_.max_comm a b
+
+theorem min_comm' (a b : EVal) : EVal.min a b = EVal.min b a := by
+  rw [EVal.min_eq, EVal.min_eq]; exact _root_.min_comm a b
+
+end RtcVerif.EVal
